@@ -83,11 +83,15 @@ func (s *c18Srv) handle(srv *refpeer.Server, sc *refpeer.SrvConn, m *refpeer.Msg
 	case x < 90:
 		act = "fault"
 		send = func() { sc.Fault(m, ua.StatusBadNodeIDUnknown) }
-	case x < 95:
+	case x < 93:
 		act = "wrongtype"
 		send = func() {
 			sc.Reply(m, &ua.WriteResponse{ResponseHeader: refpeer.RespHeader(req, ua.StatusOK), Results: []ua.StatusCode{ua.StatusOK}})
 		}
+	case x < 95:
+		// a message that decodes but is no response at all: the request comes back
+		act = "request-echoed"
+		send = func() { sc.Reply(m, req) }
 	default:
 		act = "unsolicited+answer"
 		other := &refpeer.Msg{ReqID: m.ReqID + 0x40000000}
